@@ -55,7 +55,7 @@ HARNESSES = [
     H('scriptnum_decode', 'scriptnum.cpp', 'h_decode', link=['script/script.cpp', 'uint256.cpp'], variants=[{'LEN': l} for l in range(0, 7)], shadow=['nofmt'], unwind=12, memunwind=40, timeout=400, objbits=10,
       functions=['CScriptNum::CScriptNum(vector, fRequireMinimal, nMaxNumSize)', 'CScriptNum::set_vch', 'CScriptNum::getint', 'CScriptNum::GetInt64'],
       bounds='all byte strings of length 0..6, both minimal modes, nMaxNumSize 4 and 5'),
-    H('scriptnum_encode', 'scriptnum.cpp', 'h_encode', link=['script/script.cpp', 'uint256.cpp'], shadow=['nofmt'], unwind=12, memunwind=40, timeout=600, objbits=10, backends=['default', 'cadical', 'kissat'],
+    H('scriptnum_encode', 'scriptnum.cpp', 'h_encode', link=['script/script.cpp', 'uint256.cpp'], shadow=['nofmt'], unwind=12, memunwind=40, timeout=2400, tier='thorough', objbits=10, backends=['default', 'cadical', 'kissat'],
       functions=['CScriptNum::serialize'], bounds='all 64-bit values except INT64_MIN (excluded by the documented contract of serialize)', assumptions=['value != INT64_MIN']),
     H('evalseq', 'evalseq.cpp', 'h_evalseq', link=['script/interpreter.cpp', 'script/script.cpp', 'script/script_error.cpp', 'primitives/transaction.cpp', 'uint256.cpp', 'hash.cpp', 'crypto/ripemd160.cpp', 'crypto/sha1.cpp', 'crypto/sha256.cpp'],
       entries=seq_quick, shadow=['nofmt'], unwind=12, memunwind=40, timeout=600, objbits=11,
